@@ -46,7 +46,7 @@ REAL_VS_STUB = {"real": ["sdeint, BaseSDESolver.integrate (adaptive loop), adapt
 PROBES = ("trials", "accepted", "rejected", "rejection_at_dt_min", "ge5_consecutive_rejections", "step_at_dt_min",
           "accepted_with_err_gt_1_at_dt_min", "final_step_clipped", "final_step_le_4ulp", "value_model_trials",
           "err_recomputed", "outputs_checked", "conf_real", "conf_adv", "real_bm", "stub_bm", "f32", "stiff",
-          "err_hugging_1", "via_sdeint_adjoint")  # (scheme_diverged is counted too; it is zero in most batches)
+          "err_hugging_1", "via_sdeint_adjoint", "unsplittable_trial_modelled")  # (scheme_diverged is counted too; it is zero in most batches)
 STATE_MEASURE = "distinct accept/reject words (one letter per trial) together with (solver, noise type)"
 
 
@@ -451,11 +451,15 @@ def run_case(case, keep_log=False):
                 out_i += 1
 
         for k, (a, b, mid) in enumerate(trials):
-            if not (a < mid < b):
-                break  # a 1-ulp trial cannot be re-executed through the public API (ts must be strictly increasing)
-            y_full, _ = one_step(cur_y, a, b, cur_ex)
-            y_mid, ex_mid = one_step(cur_y, a, mid, cur_ex)
-            y_half, ex_half = one_step(y_mid, mid, b, ex_mid)
+            y_full, ex_full = one_step(cur_y, a, b, cur_ex)
+            if a < mid < b:
+                y_mid, ex_mid = one_step(cur_y, a, mid, cur_ex)
+                y_half, ex_half = one_step(y_mid, mid, b, ex_mid)
+            else:
+                # a 1-ulp trial cannot be halved (its midpoint is one of its ends): a zero-length half step is the
+                # identity, so the two-half-step solution *is* the full step (and the estimated error is 0). See D7.
+                y_half, ex_half = y_full, ex_full
+                probes["unsplittable_trial_modelled"] = 1
             probes["value_model_trials"] += 1
             if conf == "real":
                 e_model = rms_error(y_full, y_half, rtol, atol)
